@@ -5,6 +5,10 @@ MANIFEST = {
             "checkToken, onConflictDefault incl. the Pos() calls) + tpl/token (Token.Len, Token.String, ForEach over the `tokens` table, "
             "guards regenerated from the source as written) + the tpl/matcher code NewEx runs (First of every matcher, CheckConflicts, "
             "Var.First with the recovered RecursiveError), in which every Go panic site on that path is an explicit outcome: "
+            "C27_fromfile_total / C27_newex_total / C27_relocate_total (tpl.FromFile with any readable or unreadable source and tpl.NewEx = "
+            "FromFile + Relocate never panic, over every kind of error FromFile returns: *scanner.Error, scanner.ErrorList, *matcher.Error, "
+            "errors.List, and position-less ones such as cl.ErrNoDocFound / iox.ErrInvalidSource / I/O errors; Relocate's case list and its "
+            "default clause are regenerated from tpl/tpl.go; false for the `default: panic(\"todo: ...\")` the tree had before commit e019000), "
             "C27_new_total / C27_new_outcomes (for every token list and every behaviour of strconv.Unquote/UnquoteChar the result is a "
             "parse error, a compiler, ErrNoDocFound or an error list: never a panic), C27_compile_total (NewEx never panics on any tree the "
             "parser returns without error), C27_token_len_total, C27_token_string_total, C27_check_token_total (table accessors total for "
@@ -17,7 +21,9 @@ MANIFEST = {
     "note": "trusted: Lean kernel + propext/Classical.choice/Quot.sound; strconv.Unquote/UnquoteChar, token.FileSet.Position, fmt and "
             "qiniu/x/errors are assumed not to panic (their results are parameters / not modelled); hypothesis of C27_new_total: a CHAR "
             "token has >= 2 bytes (true of the scanner whenever it reports no error: scanRune; checked on every harness case); RetProc "
-            "parameters of tpl.New (user callbacks, the odd-length `params` panic of retProcs) are outside the property; hand-written "
+            "parameters of tpl.New/tpl.NewEx (user callbacks; retProcs panics by design on an odd count or a non-string rule name: documented "
+            "programmer errors, excluded explicitly) are outside the property; error positions/messages and relocatePos arithmetic (plain "
+            "int additions on a non-nil *Position) are not modelled; hand-written "
             "compile/First model tied by the differential run only.",
     "technique": "Lean 4 proof (structural induction over the AST / matcher, fuel adequacy by erasing visited rules) + translator "
                  "(tpl/token tables and guards) + differential correspondence model vs real tpl.New / cl.NewEx",
@@ -27,7 +33,9 @@ RULE = ("fixed grammars; every byte 0..255 as \\xHH, \\OOO, raw byte and \\u00HH
         "ASCII punctuation characters as a string literal; every token spelling, spelling+'=', doubled last char, truncated, blank-prefixed; "
         "repo grammar corpus; random multi-rule grammars (1-5 rules over 6 names, left recursion, recursion under a choice, duplicates, "
         "undefined and builtin identifiers, => {..} blocks), character-level damaged grammars, random escape/punctuation literals; "
-        "tplcl cases (cl.NewEx despite parse errors) from damaged grammars and expressions with a removed operand; distinct by token list, "
+        "for every tplnew case a tplnewex case (real tpl.NewEx with varying line/col incl. 0, negative and 2^40, ShowConflict on and off, "
+        "and real tpl.FromFile; dynamic error types compared), plus the same text as []byte, io.Reader, *bytes.Buffer and as unreadable "
+        "sources (nil *bytes.Buffer, int, failing reader, nil); tplcl cases (cl.NewEx despite parse errors) from damaged grammars and expressions with a removed operand; distinct by token list, "
         "non-trivial = the compiler was reached (no parse error)")
 
 
